@@ -118,6 +118,7 @@ def main(argv=None):
         rep.analysed["units"] = [u["unit"] for u in ctx.ws.units]
         rep.analysed["source_digest"] = ctx.ws.digest
         mod.run(ctx, rep)
+        rep.analysed["specialised_helpers"] = sorted(set(ctx.ws.spec_log))
     except AnalysisBroken as e:
         rep.inconclusive(pid + ".engine", "analysis", "", str(e))
     except Exception:
